@@ -153,3 +153,43 @@ Example C06_nonvacuous :
   (* the same start request three times, another id in between *)
   start_all [] [(5, 1); (5, 2); (6, 3); (5, 1)] = ([(5, 1); (6, 3)], [(1, true); (1, false); (3, true); (1, false)]).
 Proof. vm_compute. repeat split. Qed.
+
+(* ENGINE-LEVEL THEOREMS (whole-engine model Model/Engine.v; every program, state, event) *)
+Require Mistral.Model.Engine Mistral.Proofs.EngineSafety Mistral.Proofs.EngineMore.
+
+(* an accepted action result is final: any further delivery for that action is rejected and the whole
+   engine state (rows, pending items) is unchanged *)
+Theorem C06_engine_duplicate_result_inert : forall sp s aid res res' s',
+  Engine.do_result sp s aid res = (s', Engine.Ok) ->
+  Engine.step sp s' (Engine.EDup (Engine.IResult aid res')) = (s', Engine.Internal).
+Proof. exact EngineSafety.duplicate_result_inert. Qed.
+Print Assumptions C06_engine_duplicate_result_inert.
+
+Theorem C06_engine_completed_action_rejects : forall sp s aid res,
+  Gen.States.is_completed (Engine.a_state (Engine.get_act s aid)) = true ->
+  Engine.step sp s (Engine.EDup (Engine.IResult aid res)) = (s, Engine.Internal).
+Proof. exact EngineSafety.completed_action_rejects. Qed.
+Print Assumptions C06_engine_completed_action_rejects.
+
+(* a redelivered first-run start_task for a task that already started creates nothing and changes no row *)
+Theorem C06_engine_duplicate_first_start_inert : forall sp s tid rerun reset,
+  Gen.States.is_idle (Engine.t_state (Engine.get_task s tid)) = false ->
+  let s' := fst (Engine.do_start_task sp s tid true rerun reset) in
+  Engine.tasks s' = Engine.tasks s /\ Engine.acts s' = Engine.acts s /\
+  Engine.wf_state s' = Engine.wf_state s /\ Engine.backlog s' = Engine.backlog s.
+Proof. exact EngineMore.duplicate_first_start_inert. Qed.
+Print Assumptions C06_engine_duplicate_first_start_inert.
+
+(* a redelivered resume-issued start request for a task that has started is ignored entirely *)
+Theorem C06_engine_stale_resume_start_ignored : forall sp s tid reset,
+  tid < List.length (Engine.tasks s) -> Gen.States.is_idle (Engine.t_state (Engine.get_task s tid)) = false ->
+  Engine.do_start_task sp s tid false false reset = (s, Engine.Ok).
+Proof. exact EngineMore.stale_resume_start_ignored. Qed.
+Print Assumptions C06_engine_stale_resume_start_ignored.
+
+(* no delivery of any message ever creates a task execution while the workflow is paused or finished *)
+Theorem C06_engine_no_creation_when_quiet : forall sp s e,
+  Engine.wf_created s = true -> EngineSafety.quiet s = true -> EngineMore.no_restart e = true ->
+  EngineSafety.ntasks (fst (Engine.step sp s e)) = EngineSafety.ntasks s.
+Proof. exact EngineMore.quiet_no_creation. Qed.
+Print Assumptions C06_engine_no_creation_when_quiet.
